@@ -625,6 +625,9 @@ def gen_record(rng, crit, opts=None):
                 rec[f] = bool(v)
             elif kind == "negzero" and v == 0.0:
                 rec[f] = -0.0
+    if opts.get("big_dyadic") and rng.chance(opts["big_dyadic"]):
+        # 2**24 among small values: exact in double precision, not in single precision (16777216 + 1 == 16777216 there)
+        rec[rng.pick(["x", "y"])] = rng.pick([16777216.0, -16777216.0, 33554432.0])
     if opts.get("big_ints") and rng.chance(opts["big_ints"]):
         # a 64-bit identifier / nanosecond time stamp: an integer no double can hold exactly
         rec[rng.pick(["x", "y"])] = rng.pick([2 ** 53 + 1, 1700000000000000001, -(2 ** 60) - 7])
